@@ -149,6 +149,13 @@ type StmtOpts struct {
 	NoScan bool
 	// InsertOnly restricts the kinds to plain INSERT.
 	InsertOnly bool
+	// NoOwnIndexScan keeps an UPDATE from scanning an index that contains a
+	// column it sets: no such index is forced, and the WHERE clause does not
+	// mention the leading column of such an index (the planner picks an index
+	// by itself when its leading column is fixed by an equality). OnOwnIndex
+	// is called when the option changed the statement.
+	NoOwnIndexScan bool
+	OnOwnIndex     func()
 	// Pred carries the exclusions to apply to generated WHERE clauses.
 	Pred QueryOpts
 }
@@ -173,6 +180,7 @@ func GenStmt(rt *rapid.T, t *Table, used KeySet, o StmtOpts) *Stmt {
 	po.NoParams, po.NoSubquery = true, true
 	g := NewGen(rt, po)
 	self := From{T: t, Alias: ""}
+	forcible := t.Indexes // indexes an UPDATE/DELETE may be forced through
 	var settable []*Column
 	for _, c := range t.Cols {
 		if !t.IsPK(c.Name) {
@@ -252,13 +260,44 @@ func GenStmt(rt *rapid.T, t *Table, used KeySet, o StmtOpts) *Stmt {
 		if s.Set == nil {
 			s.Kind = SDelete
 		}
+		if o.NoOwnIndexScan && s.Kind == SUpdate {
+			own := func(ix Index) bool { // the index holds a column the statement sets
+				for _, a := range s.Set {
+					for _, c := range ix.Cols {
+						if c == a.C.Name {
+							return true
+						}
+					}
+				}
+				return false
+			}
+			lead := map[string]bool{}
+			for _, ix := range t.Indexes {
+				if own(ix) {
+					lead[ix.Cols[0]] = true
+				}
+			}
+			if len(lead) > 0 {
+				if o.OnOwnIndex != nil {
+					o.OnOwnIndex()
+				}
+				g.skipCol = func(c *Column) bool { return lead[c.Name] }
+				var free []Index
+				for _, ix := range t.Indexes {
+					if !own(ix) {
+						free = append(free, ix)
+					}
+				}
+				forcible = free
+			}
+		}
 		fallthrough
 	case SDelete:
 		if rapid.IntRange(0, 9).Draw(rt, "dmlWhere") != 0 {
 			s.Where = g.GenPred([]From{self}, rapid.IntRange(0, 2).Draw(rt, "dmlDepth"))
 		}
-		if len(t.Indexes) > 0 && rapid.IntRange(0, 3).Draw(rt, "dmlIndex") == 0 {
-			s.UseIndex = t.Indexes[rapid.IntRange(0, len(t.Indexes)-1).Draw(rt, "dmlIx")].Cols
+		if len(forcible) > 0 && rapid.IntRange(0, 3).Draw(rt, "dmlIndex") == 0 {
+			s.UseIndex = forcible[rapid.IntRange(0, len(forcible)-1).Draw(rt, "dmlIx")].Cols
 		}
 	}
 	return s
